@@ -174,6 +174,8 @@ pub struct World {
     pub sched_log: Vec<u8>,
     pub replay: Vec<u8>,
     pub replay_pos: usize,
+    /// strategy to continue with once the recorded prefix is used up
+    pub replay_then: Option<Strategy>,
     pub last: usize,
     // pct
     pub prio: Vec<u32>,
@@ -229,6 +231,7 @@ impl World {
             sched_log: Vec::new(),
             replay: Vec::new(),
             replay_pos: 0,
+            replay_then: None,
             last: MAIN,
             prio: Vec::new(),
             solo_points: Vec::new(),
@@ -311,6 +314,10 @@ impl World {
             && self.alive[t]
         {
             t
+        } else if self.strat == Strategy::Replay && self.replay_pos >= self.replay.len() && self.replay_then.is_some() {
+            // the recorded prefix is used up: continue with a seeded strategy
+            self.strat = self.replay_then.take().unwrap();
+            return self.choose(cur);
         } else if self.strat == Strategy::Replay {
             let c = self.replay.get(self.replay_pos).copied();
             self.replay_pos += 1;
